@@ -7,6 +7,8 @@ CHECKS = {
          "Every reachable state within the depth bound is probed on the real in-memory, SQLite, SQLite-reopened and HTTP implementations: the walk from the chain base must return exactly the versions the implementation itself acknowledged, in order, and no two stored versions may share a parent. Exhaustive within the stated alphabet/depth; the right level because the property quantifies over histories, which a BFS over the real transition function enumerates.", "4.1, 5/C01"),
  "C02": ("E-SEQ", "model_checking", "explicit-state BFS; every AddVersion transition compared with the reference model (response, fresh id, stored row, untouched state on reject)",
          "Every AddVersion transition (every parent class, from every reachable state within the bound) is executed on library and HTTP entries over both backends and compared with the reference model: acceptance iff empty or parent = latest, fresh non-nil id, stored parent/payload, conflict names latest and changes nothing.", "4.1, 5/C02"),
+ "C06": ("E-PAYLOAD", "exploration", "exhaustive product of a boundary-structured payload alphabet (length x byte class x chunking x route x backend x entry), each uploaded through the real code and read back",
+         "Model checking's exhaustive enumeration applied to an input alphabet rather than a state space: every payload of the alphabet (all lengths 1..300 and 3800..4200, page/overflow/varint boundaries, 7 byte classes, numeric-looking texts, all one-byte payloads, all chunk compositions of short bodies and boundary splits of long ones) is uploaded and read back on both backends through library and in-process HTTP. Exhaustive over the alphabet only; the payload space itself is not enumerable, hence level exploration.", "5/C06"),
  "C07": ("E-SEQ", "model_checking", "explicit-state BFS; every acknowledged version re-read in every later state, also after reopen",
          "For every state within the bound, every version the implementation acknowledged earlier on that path is re-read by its parent and must come back with identical id, parent and bytes, including after reopening the database.", "4.1, 5/C07"),
  "C08": ("E-SEQ", "model_checking", "explicit-state BFS; GetChildVersion answer for every id class checked against the AddVersion transition from the same state",
@@ -23,8 +25,14 @@ CHECKS = {
          "Every transition and probe is executed in lock step on the in-memory backend, SQLite, and SQLite with a new storage object before every request; responses (modulo random ids) and stored state must be identical, and answers must not change across an explicit reopen.", "4.1, 5/C13"),
  "C14": ("E-SEQ", "model_checking", "explicit-state BFS with HTTP and library twins on twin storages; exact header/status/body encoding checked on every response",
          "Every transition and probe goes through the real actix app and through the library on a twin storage; status, X-Version-Id, X-Parent-Version-Id, X-Snapshot-Request, Content-Type and body must be exactly the encoding of the library outcome, including absence of headers that do not apply.", "4.1, 5/C14"),
+ "C15": ("E-HTTP", "model_checking", "exhaustive request-grammar product (route x method x client-id form x path-id form x content-type form x body class) through the real actix app on servers holding state, storage-access counter + dump bracket",
+         "Every request of the grammar product (about 62 000 per server state, plus limit-sized bodies generated lazily) is sent through the real app on in-memory and SQLite servers holding non-trivial and empty state: never 5xx or panic; malformed in any dimension => 4xx and stored state identical (no writing storage call, else full dump compare); exactly-limit bodies accepted, limit+1 refused.", "4.2, 5/C15"),
+ "C16": ("E-HTTP+E-SEQ", "model_checking", "exhaustive request-grammar product under allow-lists {none, empty, {A}, {A,B}} with a storage-access counter; listed clients explored by BFS in lock step with a list-less twin",
+         "For every allow-list shape and every request of the grammar: unlisted and otherwise well-formed => exactly 403, unlisted and malformed => 4xx, zero storage transactions in both cases (counted at the Storage trait), listed or list-less => never 403. Listed clients' histories are explored by E-SEQ on allow-listed servers in lock step with list-less twins and must answer identically.", "4.2, 5/C16"),
  "C18": ("E-SEQ", "model_checking", "explicit-state BFS; complete dump (raw tables + API view) compared before/after every non-mutating outcome",
          "Every read, conflicting AddVersion and declined AddSnapshot in every reachable state within the bound is bracketed by complete dumps (raw SQLite tables and API view) which must be identical.", "4.1, 5/C18"),
+ "C20": ("E-HTTP+E-SEQ", "model_checking", "Cache-Control monitor on every response of the exhaustive request-grammar product and of the BFS over histories (all routes, methods, outcomes, refusals, unknown routes)",
+         "Every response produced by the grammar product (all routes, methods, malformed variants, unknown routes, allow-list refusals) and by the history exploration through both HTTP implementations must carry Cache-Control containing no-store.", "4.2, 5/C20"),
 }
 NOTE = {
  "default": "Trusted: the reference model (harness/src/model.rs), the harness itself, rustc; SQLite is part of the subject. Bounds (depth, clients, alphabet) are in the evidence file; nothing is claimed beyond them.",
@@ -60,6 +68,8 @@ def main():
             "add_only": True,
         },
         "engines": [
+            {"name": "E-HTTP", "path": "harness/src/ehttp.rs", "serves_properties": ["C15", "C16", "C20"], "kind_free_text": "exhaustive enumeration of a request grammar against the real actix app on live state"},
+            {"name": "E-PAYLOAD", "path": "harness/src/epayload.rs", "serves_properties": ["C06"], "kind_free_text": "exhaustive enumeration of a payload/chunking alphabet through the real upload and read paths"},
             {"name": "E-SWEEP", "path": "harness/src/esweep.rs", "serves_properties": ["C12"], "kind_free_text": "exhaustive product of boundary configurations and measures executed on the real urgency computation"},
             {"name": "E-SEQ", "path": "harness/src/eseq.rs", "serves_properties": [p for p in sorted(CHECKS) if "E-SEQ" in CHECKS[p][0]], "kind_free_text": "explicit-state breadth-first exploration of symbolic request histories; the transition function is the real Server / actix handler / storage code; reference model compared on every transition"},
         ],
